@@ -69,3 +69,12 @@ pub fn fault<D: AsRef<str>>(
 pub fn override_snapshot() -> Option<crate::payload::PayloadSnapshot> {
     handler().and_then(|handler| handler.override_snapshot())
 }
+
+/// Reports the named point when the value is dropped.
+pub struct PointOnDrop(pub &'static str);
+
+impl Drop for PointOnDrop {
+    fn drop(&mut self) {
+        point(self.0, || "")
+    }
+}
